@@ -9,13 +9,26 @@ Local Open Scope N_scope.
 Lemma beq_refl a : beq_bytes a a = true.
 Proof. apply beq_bytes_eq. reflexivity. Qed.
 
+Lemma names_eqb_eq a : forall b, names_eqb a b = true -> a = b.
+Proof.
+  induction a as [|x a IH]; intros [|y b]; cbn [names_eqb]; intro H; try discriminate; [reflexivity|].
+  apply andb_true_iff in H. destruct H as [H1 H2]. apply beq_bytes_eq in H1. rewrite (IH b H2). congruence.
+Qed.
+
+Lemma vtype_eqb_eq a b : vtype_eqb a b = true -> a = b.
+Proof.
+  destruct a as [|x| |x], b as [|y| |y]; cbn [vtype_eqb]; intro H; try discriminate; try reflexivity.
+  - destruct x, y; try discriminate; reflexivity.
+  - apply names_eqb_eq in H. congruence.
+Qed.
+
 Lemma kind_eqb_eq a b : kind_eqb a b = true -> a = b.
 Proof.
-  destruct a as [a1|a1 a2|a1|a1|], b as [b1|b1 b2|b1|b1|]; cbn [kind_eqb]; intro H; try discriminate; try reflexivity.
+  destruct a as [a1|a1 a2|a1 t1|a1 t1|], b as [b1|b1 b2|b1 t2|b1 t2|]; cbn [kind_eqb]; intro H; try discriminate; try reflexivity.
   - apply eqb_prop in H. congruence.
   - apply andb_true_iff in H. destruct H as [H1 H2]. apply eqb_prop in H1, H2. congruence.
-  - apply eqb_prop in H. congruence.
-  - apply eqb_prop in H. congruence.
+  - apply andb_true_iff in H. destruct H as [H1 H2]. apply eqb_prop in H1. apply vtype_eqb_eq in H2. congruence.
+  - apply andb_true_iff in H. destruct H as [H1 H2]. apply eqb_prop in H1. apply vtype_eqb_eq in H2. congruence.
 Qed.
 
 Lemma same_sn_eq m n x : same_sn m n x = true <-> m = d_m x /\ n = d_n x.
@@ -58,38 +71,43 @@ Proof.
 Qed.
 
 (* ---------- what lyd_path() prints, as abstract segments ---------- *)
-Definition apred_of (before : list dnode) (x : dnode) : apred :=
+(* [var] gives the spelling of the value of a key / configuration leaf-list node that is written into the predicate:
+   lyd_path() writes the stored canonical value ([var] = d_v); any other lexical form of the same value is a variant *)
+Definition apred_of (var : dnode -> bytes) (before : list dnode) (x : dnode) : apred :=
   match d_k x with
   | KList true _ => APos (list_pos before x)
-  | KList false _ => AKeys (map (fun c => (d_n c, d_v c)) (lead_keys (d_ch x)))
-  | KLeafList true => ADot (d_v x)
-  | KLeafList false => APos (list_pos before x)
+  | KList false _ => AKeys (map (fun c => (d_n c, var c)) (lead_keys (d_ch x)))
+  | KLeafList true _ => ADot (var x)
+  | KLeafList false _ => APos (list_pos before x)
   | _ => ANone
   end.
-Definition aseg_of (pm : option bytes) (before : list dnode) (x : dnode) : aseg :=
-  mk_aseg (if opt_is pm (d_m x) then None else Some (d_m x)) (d_n x) (apred_of before x).
+Definition aseg_of (var : dnode -> bytes) (pm : option bytes) (before : list dnode) (x : dnode) : aseg :=
+  mk_aseg (if opt_is pm (d_m x) then None else Some (d_m x)) (d_n x) (apred_of var before x).
 
-Fixpoint asegs (pm : option bytes) (f : list dnode) (p : list nat) : list aseg :=
+Fixpoint asegs (var : dnode -> bytes) (pm : option bytes) (f : list dnode) (p : list nat) : list aseg :=
   match p with
   | [] => []
   | i :: p' =>
       match nth_error f i with
       | None => []
-      | Some x => aseg_of pm (rev (firstn i f)) x :: asegs (Some (d_m x)) (d_ch x) p'
+      | Some x => aseg_of var pm (rev (firstn i f)) x :: asegs var (Some (d_m x)) (d_ch x) p'
       end
   end.
 
-Lemma seg_bytes_render pm before x : seg_bytes pm before x = render_seg (aseg_of pm before x).
+(* the path with the values spelled by [var] *)
+Definition path_var (var : dnode -> bytes) (t : list dnode) (p : list nat) : bytes := render (asegs var None t p).
+
+Lemma seg_bytes_render pm before x : seg_bytes pm before x = render_seg (aseg_of d_v pm before x).
 Proof.
   unfold seg_bytes, render_seg, aseg_of. cbn [a_pfx a_n a_pred].
-  assert (E : node_pred before x = render_pred (apred_of before x)).
-  { unfold node_pred, apred_of. destruct (d_k x) as [pr|[|] cw|[|]|ik|]; cbn [render_pred]; try reflexivity.
+  assert (E : node_pred before x = render_pred (apred_of d_v before x)).
+  { unfold node_pred, apred_of. destruct (d_k x) as [pr|[|] cw|[|] ty|ik ty|]; cbn [render_pred]; try reflexivity.
     unfold keys_pred. rewrite flat_map_map. reflexivity. }
   rewrite E. destruct (opt_is pm (d_m x)); reflexivity.
 Qed.
 
 Lemma path_from_render p : forall pm f x,
-  node_at f p = Some x -> path_from pm f p = Some (render (asegs pm f p)).
+  node_at f p = Some x -> path_from pm f p = Some (render (asegs d_v pm f p)).
 Proof.
   induction p as [|i p IH]; intros pm f x H; [discriminate|].
   cbn [node_at path_from asegs] in *. destruct (nth_error f i) as [y|]; [|discriminate].
@@ -97,6 +115,25 @@ Proof.
   - cbn [asegs render flat_map]. rewrite app_nil_r. reflexivity.
   - rewrite (IH (Some (d_m y)) (d_ch y) x H). reflexivity.
 Qed.
+
+(* ---------- the spelling of predicate values ---------- *)
+(* the nodes whose value is written into a predicate *)
+Definition needs_lit (k : pkind) : bool :=
+  match k with KLeaf true _ | KLeafList true _ => true | _ => false end.
+
+(* [var] spells the value of every such node of the tree as some lexical form of the stored canonical value, without
+   both quote characters in it *)
+Fixpoint var_ok_node (var : dnode -> bytes) (x : dnode) {struct x} : bool :=
+  match x with
+  | DN m n k v ch =>
+      (if needs_lit k
+       then match canon (kind_ty k) (var x) with Some cv => beq_bytes cv v | None => false end && one_quote (var x)
+       else true) && forallb (var_ok_node var) ch
+  end.
+Definition var_ok (var : dnode -> bytes) (t : list dnode) : bool := forallb (var_ok_node var) t.
+
+Section WithVar.
+Variable var : dnode -> bytes.
 
 (* ---------- well-formedness, unpacked ---------- *)
 Definition nokeys_s (ch : list snode) : bool := forallb (fun c => negb (is_key_kind (s_k c))) ch.
@@ -108,11 +145,11 @@ Record Level (sc : list snode) (f : list dnode) : Prop := mk_level {
   lv_dwf : forallb (dwf_node sc) f = true;
   lv_sibs : sibs_ok [] f = true;
   lv_len : N.of_nat (length f) < 2147483648;
-  lv_q : forallb quotes_ok_node f = true }.
+  lv_q : forallb (var_ok_node var) f = true }.
 
-Lemma top_level S t : swf S = true -> dwf S t = true -> quotes_ok t = true -> Level S t /\ nokeys_d t = true.
+Lemma top_level S t : swf S = true -> dwf S t = true -> var_ok var t = true -> Level S t /\ nokeys_d t = true.
 Proof.
-  unfold swf, dwf, quotes_ok. intros Hs Hd Hq.
+  unfold swf, dwf, var_ok. intros Hs Hd Hq.
   apply andb_true_iff in Hs. destruct Hs as [Hs _].
   apply andb_true_iff in Hd. destruct Hd as [Hd Hk].
   apply andb_true_iff in Hd. destruct Hd as [Hd Hf].
@@ -128,7 +165,7 @@ Record NodeOk (sc : list snode) (x : dnode) (s : snode) : Prop := mk_nodeok {
   no_k : s_k s = d_k x;
   no_val : match d_k x with
            | KCont _ | KList _ _ | KAny => d_v x = []
-           | _ => str_ok (d_v x) = true
+           | _ => canon (kind_ty (d_k x)) (d_v x) = Some (d_v x)
            end;
   no_ch : match d_k x with
           | KList false _ => keys_agree (lead_keys (d_ch x)) (schema_keys (s_ch s)) = true /\
@@ -149,8 +186,12 @@ Proof.
   apply kind_eqb_eq in H.
   split; [|split; [assumption|split; [lia|assumption]]].
   constructor; cbn [d_m d_n d_k d_v d_ch]; try assumption.
-  - destruct k as [pr|kl cw|cw|ik|]; try assumption; destruct v; try reflexivity; discriminate.
-  - destruct k as [pr|[|] cw|cw|ik|]; try assumption.
+  - assert (Hc : forall ty, match canon ty v with Some cv => beq_bytes cv v | None => false end = true ->
+                            canon ty v = Some v).
+    { intros ty0 Hc. destruct (canon ty0 v) as [cv|]; [|discriminate]. apply beq_bytes_eq in Hc. congruence. }
+    destruct k as [pr|kl cw|cw ty|ik ty|]; cbn [kind_ty]; try (apply Hc; assumption);
+      destruct v; try reflexivity; discriminate.
+  - destruct k as [pr|[|] cw|cw ty|ik ty|]; try assumption.
     + apply andb_true_iff in H3. exact H3.
     + destruct ch; [reflexivity|discriminate].
     + destruct ch; [reflexivity|discriminate].
@@ -166,13 +207,22 @@ Proof. destruct s as [m n k ch]. cbn [swf_node s_ch]. intro H. apply andb_true_i
 Lemma swf_in sc s : forallb swf_node sc = true -> In s sc -> swf_node s = true.
 Proof. intros H Hin. rewrite forallb_forall in H. apply H. exact Hin. Qed.
 
-Lemma quotes_children x : quotes_ok_node x = true -> forallb quotes_ok_node (d_ch x) = true.
-Proof. destruct x as [m n k v ch]. cbn [quotes_ok_node d_ch]. intro H. apply andb_true_iff in H. apply H. Qed.
+Lemma var_children x : var_ok_node var x = true -> forallb (var_ok_node var) (d_ch x) = true.
+Proof. destruct x as [m n k v ch]. cbn [var_ok_node d_ch]. intro H. apply andb_true_iff in H. apply H. Qed.
+
+Lemma var_self x : var_ok_node var x = true -> needs_lit (d_k x) = true ->
+  canon (kind_ty (d_k x)) (var x) = Some (d_v x) /\ one_quote (var x) = true.
+Proof.
+  destruct x as [m n k v ch]. cbn [var_ok_node d_k d_v]. intros H Hk. rewrite Hk in H.
+  apply andb_true_iff in H. destruct H as [H _]. apply andb_true_iff in H. destruct H as [H1 H2].
+  split; [|exact H2]. destruct (canon (kind_ty k) (var (DN m n k v ch))) as [cv|]; [|discriminate].
+  apply beq_bytes_eq in H1. congruence.
+Qed.
 
 (* descend one level *)
 Lemma level_down sc f i x :
   Level sc f -> nth_error f i = Some x ->
-  exists s, NodeOk sc x s /\ swf_node s = true /\ quotes_ok_node x = true /\ Level (s_ch s) (d_ch x).
+  exists s, NodeOk sc x s /\ swf_node s = true /\ var_ok_node var x = true /\ Level (s_ch s) (d_ch x).
 Proof.
   intros L Hn. destruct L as [Hs Hd Hsib Hlen Hq].
   pose proof (forallb_nth _ _ _ _ Hd Hn) as Hx. pose proof (forallb_nth _ _ _ _ Hq Hn) as Hqx.
@@ -180,7 +230,7 @@ Proof.
   exists s. destruct (find_child_some _ _ _ _ (no_find _ _ _ Hok)) as (Hin & _ & _).
   pose proof (swf_in sc s Hs Hin) as Hsw.
   split; [exact Hok|split; [exact Hsw|split; [exact Hqx|]]].
-  constructor; [apply swf_node_children; exact Hsw|exact Hch|exact Hsib'|exact Hlen'|apply quotes_children; exact Hqx].
+  constructor; [apply swf_node_children; exact Hsw|exact Hch|exact Hsib'|exact Hlen'|apply var_children; exact Hqx].
 Qed.
 
 (* the schema side of one node *)
@@ -201,7 +251,7 @@ Lemma swf_kind s : swf_node s = true ->
 Proof.
   destruct s as [m n k ch]. cbn [swf_node s_m s_k s_ch]. intro H.
   apply andb_true_iff in H. destruct H as [H _]. apply andb_true_iff in H. destruct H as [_ H].
-  destruct k as [pr|[|] cw|cw|ik|].
+  destruct k as [pr|[|] cw|cw ty|ik ty|].
   - exact H.
   - apply andb_true_iff in H. destruct H as [H1 H2]. split; [destruct cw; [discriminate|reflexivity]|exact H2].
   - apply andb_true_iff in H. destruct H as [H H3]. apply andb_true_iff in H. destruct H as [H1 H2].
@@ -219,8 +269,11 @@ Proof.
   rewrite (IH ks H2). destruct k as [km kn]. cbn [fst snd] in *. congruence.
 Qed.
 
-Lemma is_key_kind_eq k : is_key_kind k = true -> k = KLeaf true.
-Proof. destruct k as [pr|kl cw|cw|[|]|]; cbn; intro H; try discriminate. reflexivity. Qed.
+Lemma is_key_kind_eq k : is_key_kind k = true -> exists ty, k = KLeaf true ty.
+Proof. destruct k as [pr|kl cw|cw ty|[|] ty|]; cbn; intro H; try discriminate. exists ty. reflexivity. Qed.
+
+Lemma key_needs_lit k : is_key_kind k = true -> needs_lit k = true.
+Proof. intro H. destruct (is_key_kind_eq k H) as [ty ->]. reflexivity. Qed.
 
 Lemma distinct_names_prop l : distinct_names l = true -> names_distinct (map snd l).
 Proof.
@@ -236,10 +289,10 @@ Record KeysOk (s : snode) (x : dnode) : Prop := mk_keysok {
   ko_ne : lead_keys (d_ch x) <> [];
   ko_dist : names_distinct (map d_n (lead_keys (d_ch x)));
   ko_each : forall c, In c (lead_keys (d_ch x)) ->
-      d_m c = s_m s /\ name_ok (d_n c) = true /\ str_ok (d_v c) = true /\ one_quote (d_v c) = true /\
-      d_k c = KLeaf true /\ d_ch c = [] /\
+      d_m c = s_m s /\ name_ok (d_n c) = true /\ canon (kind_ty (d_k c)) (var c) = Some (d_v c) /\
+      one_quote (var c) = true /\ canon (kind_ty (d_k c)) (d_v c) = Some (d_v c) /\ d_ch c = [] /\
       exists c', find_child (s_ch s) (s_m s) (d_n c) = Some c' /\ is_key_kind (s_k c') = true /\
-                 s_m c' = d_m c /\ s_n c' = d_n c }.
+                 s_m c' = d_m c /\ s_n c' = d_n c /\ s_k c' = d_k c }.
 
 Lemma keys_ok sc x s cw :
   NodeOk sc x s -> swf_node s = true -> Level (s_ch s) (d_ch x) -> d_k x = KList false cw -> KeysOk s x.
@@ -265,13 +318,14 @@ Proof.
     pose proof (forallb_nth _ _ _ _ (lv_dwf _ _ L) Hj) as Hdc.
     pose proof (forallb_nth _ _ _ _ (lv_q _ _ L) Hj) as Hqc.
     destruct (dwf_node_unpack _ _ Hdc) as (c2 & Hok2 & _).
-    pose proof (is_key_kind_eq _ Hkk) as Ekc.
+    destruct (is_key_kind_eq _ Hkk) as [kty Ekc].
     pose proof (no_val _ _ _ Hok2) as Hv. pose proof (no_ch _ _ _ Hok2) as Hc. rewrite Ekc in Hv, Hc.
-    split; [exact Hm|]. split; [rewrite <- Hn'; exact Hnok|]. split; [exact Hv|].
-    split; [destruct c as [cm cn ck cv cch]; cbn [d_k d_v quotes_ok_node] in *; subst ck;
-            apply andb_true_iff in Hqc; apply Hqc|].
-    split; [exact Ekc|]. split; [exact Hc|].
-    exists c'. rewrite <- Hm. split; [exact Ef|]. split; [exact Hf|split; assumption].
+    destruct (var_self c Hqc (key_needs_lit _ Hkk)) as [Hvar1 Hvar2].
+    assert (Ec2 : c2 = c') by (pose proof (no_find _ _ _ Hok2) as F2; congruence).
+    split; [exact Hm|]. split; [rewrite <- Hn'; exact Hnok|]. split; [exact Hvar1|].
+    split; [exact Hvar2|]. split; [rewrite Ekc; exact Hv|]. split; [exact Hc|].
+    exists c'. rewrite <- Hm. split; [exact Ef|]. split; [exact Hf|]. split; [assumption|]. split; [assumption|].
+    rewrite <- Ec2. apply (no_k _ _ _ Hok2).
 Qed.
 
 (* ---------- positions ---------- *)
@@ -288,9 +342,9 @@ Proof. rewrite rev_length, firstn_length. lia. Qed.
 
 (* ---------- every printed segment is lexable and parsable ---------- *)
 Lemma aseg_of_ok sc f i x s pm :
-  Level sc f -> nth_error f i = Some x -> NodeOk sc x s -> swf_node s = true -> quotes_ok_node x = true ->
+  Level sc f -> nth_error f i = Some x -> NodeOk sc x s -> swf_node s = true -> var_ok_node var x = true ->
   Level (s_ch s) (d_ch x) ->
-  aseg_ok (aseg_of pm (rev (firstn i f)) x) /\ aseg_pok (aseg_of pm (rev (firstn i f)) x).
+  aseg_ok (aseg_of var pm (rev (firstn i f)) x) /\ aseg_pok (aseg_of var pm (rev (firstn i f)) x).
 Proof.
   intros L Hn Hok Hsw Hq Lc. destruct (swf_names s Hsw) as [Hmn Hnn].
   rewrite (no_m _ _ _ Hok) in Hmn. rewrite (no_n _ _ _ Hok) in Hnn.
@@ -298,8 +352,8 @@ Proof.
   { assert (Hi : (i < length f)%nat) by (apply nth_error_Some; congruence).
     rewrite rev_length, firstn_length. pose proof (lv_len _ _ L). lia. }
   unfold aseg_ok, aseg_pok, aseg_of. cbn [a_pfx a_n a_pred].
-  assert (Hp : apred_ok (apred_of (rev (firstn i f)) x) /\ apred_pok (apred_of (rev (firstn i f)) x)).
-  { unfold apred_of. destruct (d_k x) as [pr|[|] cw|[|]|ik|] eqn:Ek; cbn [apred_ok apred_pok]; auto.
+  assert (Hp : apred_ok (apred_of var (rev (firstn i f)) x) /\ apred_pok (apred_of var (rev (firstn i f)) x)).
+  { unfold apred_of. destruct (d_k x) as [pr|[|] cw|[|] ty|ik ty|] eqn:Ek; cbn [apred_ok apred_pok]; auto.
     - rewrite list_pos_small by lia. pose proof (run_back_le x (rev (firstn i f))). split; lia.
     - destruct (keys_ok sc x s cw Hok Hsw Lc Ek) as [Hmap Hne Hdist Heach].
       split; [|split].
@@ -308,15 +362,14 @@ Proof.
       + apply Forall_forall. intros kv Hin. apply in_map_iff in Hin. destruct Hin as (c & <- & Hc).
         cbn [fst]. destruct (Heach c Hc) as (_ & H1 & _). exact H1.
       + rewrite map_map. cbn [fst]. exact Hdist.
-    - split; [|exact I]. destruct x as [xm xn xk xv xch]. cbn [d_k d_v quotes_ok_node] in *. subst xk.
-      apply andb_true_iff in Hq. apply Hq.
+    - split; [|exact I]. apply (var_self x Hq). rewrite Ek. reflexivity.
     - rewrite list_pos_small by lia. pose proof (run_back_le x (rev (firstn i f))). split; lia. }
   destruct Hp as [Hp1 Hp2]. split; [|exact Hp2].
   split; [exact Hnn|split; [|exact Hp1]]. destruct (opt_is pm (d_m x)); [exact I|exact Hmn].
 Qed.
 
 Lemma asegs_ok p : forall pm sc f x,
-  Level sc f -> node_at f p = Some x -> Forall aseg_ok (asegs pm f p) /\ Forall aseg_pok (asegs pm f p).
+  Level sc f -> node_at f p = Some x -> Forall aseg_ok (asegs var pm f p) /\ Forall aseg_pok (asegs var pm f p).
 Proof.
   induction p as [|i p IH]; intros pm sc f x L H; [discriminate|].
   cbn [node_at asegs] in *. destruct (nth_error f i) as [y|] eqn:En; [|discriminate].
@@ -328,14 +381,14 @@ Proof.
 Qed.
 
 (* ---------- compilation of the printed path ---------- *)
-Definition key_triple (c : dnode) : bytes * bytes * bytes := (d_m c, d_n c, d_v c).
+Definition key_triple (c : dnode) : kentry := (d_m c, d_n c, (d_k c, d_v c)).
 
 Definition cpred_of (before : list dnode) (x : dnode) : cpred :=
   match d_k x with
   | KList true _ => CPos (list_pos before x)
   | KList false _ => CKeys (map key_triple (lead_keys (d_ch x)))
-  | KLeafList true => CDot (d_v x)
-  | KLeafList false => CPos (list_pos before x)
+  | KLeafList true _ => CDot (d_v x)
+  | KLeafList false _ => CPos (list_pos before x)
   | _ => CNone
   end.
 
@@ -357,12 +410,12 @@ Fixpoint csegs (sc : list snode) (f : list dnode) (p : list nat) : list cseg :=
 
 Lemma compile_keys_ok s x l :
   KeysOk s x -> (forall c, In c l -> In c (lead_keys (d_ch x))) ->
-  compile_keys s (map (fun kv => (None, fst kv, snd kv)) (map (fun c => (d_n c, d_v c)) l)) = Ok (map key_triple l).
+  compile_keys s (map (fun kv => (None, fst kv, snd kv)) (map (fun c => (d_n c, var c)) l)) = Ok (map key_triple l).
 Proof.
   intros K. induction l as [|c l IH]; intro Hin; [reflexivity|].
   cbn [map compile_keys fst snd].
-  destruct (ko_each _ _ K c (Hin c (or_introl eq_refl))) as (Hm & _ & Hs & _ & _ & _ & c' & Hf & Hk & Hm' & Hn').
-  rewrite Hf, Hk, Hs. cbn [negb]. rewrite IH by (intros d Hd; apply Hin; right; exact Hd).
+  destruct (ko_each _ _ K c (Hin c (or_introl eq_refl))) as (Hm & _ & Hs & _ & _ & _ & c' & Hf & Hk & Hm' & Hn' & Hk').
+  rewrite Hf, Hk. cbn [negb]. rewrite Hk', Hs. rewrite IH by (intros d Hd; apply Hin; right; exact Hd).
   unfold key_triple at 1. rewrite Hm', Hn'. reflexivity.
 Qed.
 
@@ -373,16 +426,17 @@ Proof.
 Qed.
 
 Lemma compile_pred_ok sc f i x s :
-  Level sc f -> nth_error f i = Some x -> NodeOk sc x s -> swf_node s = true -> Level (s_ch s) (d_ch x) ->
-  compile_pred s (ppred_of (apred_of (rev (firstn i f)) x)) = Ok (cpred_of (rev (firstn i f)) x).
+  Level sc f -> nth_error f i = Some x -> NodeOk sc x s -> swf_node s = true -> var_ok_node var x = true ->
+  Level (s_ch s) (d_ch x) ->
+  compile_pred s (ppred_of (apred_of var (rev (firstn i f)) x)) = Ok (cpred_of (rev (firstn i f)) x).
 Proof.
-  intros L Hn Hok Hsw Lc.
+  intros L Hn Hok Hsw Hq Lc.
   assert (Hpos : list_pos (rev (firstn i f)) x < 18446744073709551616).
   { assert (Hi : (i < length f)%nat) by (apply nth_error_Some; congruence).
     rewrite list_pos_small; [pose proof (run_back_le x (rev (firstn i f)))|];
       rewrite rev_length, firstn_length in *; pose proof (lv_len _ _ L); lia. }
   pose proof (swf_kind s Hsw) as Hsk. rewrite (no_k _ _ _ Hok) in Hsk.
-  unfold apred_of, cpred_of, compile_pred. destruct (d_k x) as [pr|[|] cw|[|]|ik|] eqn:Ek; cbn [ppred_of]; try reflexivity.
+  unfold apred_of, cpred_of, compile_pred. destruct (d_k x) as [pr|[|] cw|[|] ty|ik ty|] eqn:Ek; cbn [ppred_of]; try reflexivity.
   - rewrite (no_k _ _ _ Hok), Ek. destruct Hsk as [-> _]. rewrite strtoull_dec by exact Hpos. reflexivity.
   - pose proof (keys_ok sc x s cw Hok Hsw Lc Ek) as K.
     destruct (lead_keys (d_ch x)) as [|c l] eqn:El; [exfalso; apply (ko_ne _ _ K); exact El|].
@@ -390,7 +444,8 @@ Proof.
     pose proof (compile_keys_ok s x (c :: l) K) as E. rewrite El in E. cbn [map] in E.
     rewrite E by auto. cbn [length]. rewrite <- (ko_map _ _ K), El. cbn [map length]. rewrite !map_length.
     rewrite Nat.eqb_refl. reflexivity.
-  - rewrite (no_k _ _ _ Hok), Ek. pose proof (no_val _ _ _ Hok) as Hv. rewrite Ek in Hv. rewrite Hv. reflexivity.
+  - rewrite (no_k _ _ _ Hok), Ek. destruct (var_self x Hq) as [Hv _]; [rewrite Ek; reflexivity|].
+    rewrite Ek in Hv. cbn [kind_ty] in Hv. rewrite Hv. reflexivity.
   - rewrite (no_k _ _ _ Hok), Ek. rewrite strtoull_dec by exact Hpos. reflexivity.
 Qed.
 
@@ -399,7 +454,7 @@ Proof. destruct pm as [a|]; cbn [opt_is]; [|discriminate]. intro H. apply beq_by
 
 Lemma compile_ok p : forall many pm sc f x,
   Level sc f -> node_at f p = Some x ->
-  compile_segs many sc pm (map pseg_of (asegs pm f p)) = Ok (csegs sc f p).
+  compile_segs many sc pm (map pseg_of (asegs var pm f p)) = Ok (csegs sc f p).
 Proof.
   induction p as [|i p IH]; intros many pm sc f x L H; [discriminate|].
   cbn [node_at asegs csegs] in *. destruct (nth_error f i) as [y|] eqn:En; [|discriminate].
@@ -409,13 +464,13 @@ Proof.
                = Some (d_m y)).
   { destruct (opt_is pm (d_m y)) eqn:E; [apply opt_is_true; exact E|reflexivity]. }
   rewrite Em, (no_find _ _ _ Hok).
-  rewrite (compile_pred_ok sc f i y s L En Hok Hsw Lc).
+  rewrite (compile_pred_ok sc f i y s L En Hok Hsw Hq Lc).
   assert (Ec : (negb many &&
                 match cpred_of (rev (firstn i f)) y with CNone => true | _ => false end &&
                 (is_list_kind (s_k s) ||
-                 match map pseg_of (asegs (Some (d_m y)) (d_ch y) p) with [] => true | _ => false end &&
+                 match map pseg_of (asegs var (Some (d_m y)) (d_ch y) p) with [] => true | _ => false end &&
                  is_leaflist_kind (s_k s))) = false).
-  { rewrite (no_k _ _ _ Hok). unfold cpred_of. destruct (d_k y) as [pr|[|] cw|[|]|ik|]; cbn;
+  { rewrite (no_k _ _ _ Hok). unfold cpred_of. destruct (d_k y) as [pr|[|] cw|[|] ty|ik ty|]; cbn;
       rewrite ?andb_false_r; reflexivity. }
   rewrite Ec. rewrite (no_m _ _ _ Hok).
   destruct p as [|j p].
@@ -455,9 +510,10 @@ Qed.
 
 (* ... and when the leading children of another instance match them, the key values are equal *)
 Lemma keys_match_vals l : forall ch,
-  keys_match l ch = true -> length (lead_keys ch) = length l -> beq_vals (map snd l) (map d_v (lead_keys ch)) = true.
+  keys_match l ch = true -> length (lead_keys ch) = length l ->
+  beq_vals (map (fun e : kentry => snd (snd e)) l) (map d_v (lead_keys ch)) = true.
 Proof.
-  induction l as [|[[km kn] kv] l IH]; intros ch Hm Hl.
+  induction l as [|[[km kn] [kk kv]] l IH]; intros ch Hm Hl.
   - destruct (lead_keys ch); [reflexivity|discriminate].
   - destruct ch as [|c ch]; [discriminate|]. cbn [keys_match] in Hm.
     apply andb_true_iff in Hm. destruct Hm as [Hm Hm2]. apply andb_true_iff in Hm. destruct Hm as [_ Hv].
@@ -562,7 +618,7 @@ Proof.
   assert (Hnp : dup_inst (d_k x) = false -> forall y, In y pre -> same_ident x y = false).
   { intro Hdup. rewrite Hdup in Hsx. apply negb_true_iff in Hsx. intros y Hy.
     apply (existsb_false _ _ Hsx). apply in_rev in Hy. exact Hy. }
-  destruct (d_k x) as [pr|[|] cw|[|]|ik|] eqn:Ek.
+  destruct (d_k x) as [pr|[|] cw|[|] ty|ik ty|] eqn:Ek.
   - (* container *)
     rewrite Ef, <- Hlen. apply find_idx_split; [|exact Hself].
     intros y Hy. pose proof (Hnp eq_refl y Hy) as E. unfold same_ident in E. rewrite Ek, andb_true_r in E. exact E.
@@ -618,25 +674,25 @@ Proof.
   destruct (level_down _ _ j z Lc Ez) as (s2 & Hok2 & _). rewrite (no_find _ _ _ Hok2). reflexivity.
 Qed.
 
-Lemma asegs_nonempty p pm f x : node_at f p = Some x -> exists a l, asegs pm f p = a :: l.
+Lemma asegs_nonempty p pm f x : node_at f p = Some x -> exists a l, asegs var pm f p = a :: l.
 Proof.
   destruct p as [|i p]; [discriminate|]. cbn [node_at asegs]. destruct (nth_error f i); [|discriminate].
   intros _. eexists. eexists. reflexivity.
 Qed.
 
-Lemma asegs_first_pfx p f x a l : node_at f p = Some x -> asegs None f p = a :: l -> a_pfx a <> None.
+Lemma asegs_first_pfx p f x a l : node_at f p = Some x -> asegs var None f p = a :: l -> a_pfx a <> None.
 Proof.
   destruct p as [|i p]; [discriminate|]. cbn [node_at asegs]. destruct (nth_error f i); [|discriminate].
   intros _ E. inversion E. cbn. discriminate.
 Qed.
 
-(* the printed path of a node is parsed and compiled into the expected segments *)
-Lemma compile_path_own many S t p x :
-  swf S = true -> dwf S t = true -> quotes_ok t = true -> node_at t p = Some x ->
-  exists bs, path_of t p = Some bs /\ compile_path many S bs = Ok (csegs S t p).
+(* the path of a node, its values spelled by [var], is parsed and compiled into the SAME segments as the printed path:
+   the predicates hold the canonical values *)
+Lemma compile_path_var many S t p x :
+  swf S = true -> dwf S t = true -> var_ok var t = true -> node_at t p = Some x ->
+  compile_path many S (path_var var t p) = Ok (csegs S t p).
 Proof.
-  intros Hs Hd Hq Hn. destruct (top_level S t Hs Hd Hq) as [L _].
-  exists (render (asegs None t p)). split; [apply (path_from_render p None t x Hn)|].
+  intros Hs Hd Hq Hn. destruct (top_level S t Hs Hd Hq) as [L _]. unfold path_var.
   destruct (asegs_ok p None S t x L Hn) as [Hok Hpok].
   destruct (asegs_nonempty p None t x Hn) as (a & l & Ea).
   unfold compile_path. rewrite Ea in *.
@@ -644,32 +700,30 @@ Proof.
   rewrite <- Ea. apply (compile_ok p many None S t x L Hn).
 Qed.
 
-(* the same, every stage visible: printed bytes, parsed path, compiled path, evaluation *)
-Theorem roundtrip_stages S t p x :
-  swf S = true -> dwf S t = true -> quotes_ok t = true -> node_at t p = Some x ->
-  exists bs sp cp,
-    path_of t p = Some bs /\ parse_path bs = Ok sp /\
+(* every stage visible: bytes, parsed path, compiled path, evaluation *)
+Theorem roundtrip_stages_var S t p x :
+  swf S = true -> dwf S t = true -> var_ok var t = true -> node_at t p = Some x ->
+  exists sp cp,
+    parse_path (path_var var t p) = Ok sp /\
     compile_segs false S None sp = Ok cp /\ compile_segs true S None sp = Ok cp /\
     eval_segs cp t = EFound p.
 Proof.
-  intros Hs Hd Hq Hn. destruct (top_level S t Hs Hd Hq) as [L _].
+  intros Hs Hd Hq Hn. destruct (top_level S t Hs Hd Hq) as [L _]. unfold path_var.
   destruct (asegs_ok p None S t x L Hn) as [Hok Hpok].
   destruct (asegs_nonempty p None t x Hn) as (a & l & Ea).
-  exists (render (asegs None t p)), (map pseg_of (asegs None t p)), (csegs S t p).
-  split; [apply (path_from_render p None t x Hn)|].
+  exists (map pseg_of (asegs var None t p)), (csegs S t p).
   split; [rewrite Ea in *; apply (parse_path_render a l Hok Hpok (asegs_first_pfx p t x a l Hn Ea))|].
   split; [apply (compile_ok p false None S t x L Hn)|].
   split; [apply (compile_ok p true None S t x L Hn)|].
   apply (eval_ok p S t x L Hn).
 Qed.
 
-(* C15, search: the path of a node finds exactly that node *)
-Theorem find_own S t p x :
-  swf S = true -> dwf S t = true -> quotes_ok t = true -> node_at t p = Some x ->
-  exists bs, path_of t p = Some bs /\ find_path S t bs = FRes (EFound p).
+(* C15, search: the path of a node, with any admissible spelling of its predicate values, finds exactly that node *)
+Theorem find_var S t p x :
+  swf S = true -> dwf S t = true -> var_ok var t = true -> node_at t p = Some x ->
+  find_path S t (path_var var t p) = FRes (EFound p).
 Proof.
-  intros Hs Hd Hq Hn. destruct (compile_path_own false S t p x Hs Hd Hq Hn) as (bs & Hp & Hc).
-  exists bs. split; [exact Hp|]. unfold find_path. rewrite Hc.
+  intros Hs Hd Hq Hn. unfold find_path. rewrite (compile_path_var false S t p x Hs Hd Hq Hn).
   destruct (top_level S t Hs Hd Hq) as [L _]. rewrite (eval_ok p S t x L Hn). reflexivity.
 Qed.
 
@@ -677,9 +731,9 @@ Qed.
 (* the shape of the segments compiled from a printed path: the predicate kind follows the node kind *)
 Definition cseg_std (cs : cseg) : Prop :=
   match cs_k cs with
-  | KList true _ | KLeafList false => exists p, cs_pred cs = CPos p
+  | KList true _ | KLeafList false _ => exists p, cs_pred cs = CPos p
   | KList false _ => exists l, cs_pred cs = CKeys l
-  | KLeafList true => exists v, cs_pred cs = CDot v
+  | KLeafList true _ => exists v, cs_pred cs = CDot v
   | _ => True
   end.
 
@@ -687,7 +741,7 @@ Lemma check_find_std value l : forall u, Forall cseg_std l -> check_find value l
 Proof.
   induction l as [|cs l IH]; intros u H; [reflexivity|].
   inversion H as [|x y Hcs Hl]; subst. cbn [check_find]. rewrite (IH (S u) Hl).
-  unfold cseg_std in Hcs. destruct (cs_k cs) as [pr|[|] cw|[|]|ik|]; cbn [dup_inst is_list_kind is_leaflist_kind].
+  unfold cseg_std in Hcs. destruct (cs_k cs) as [pr|[|] cw|[|] ty|ik ty|]; cbn [dup_inst is_list_kind is_leaflist_kind].
   - reflexivity.
   - destruct Hcs as [p ->]. reflexivity.
   - destruct Hcs as [kl ->]. reflexivity.
@@ -704,7 +758,7 @@ Proof.
   destruct (level_down sc f i y L En) as (s & Hok & Hsw & Hq & Lc).
   rewrite (no_find _ _ _ Hok). constructor.
   - unfold cseg_std, cpred_of. cbn [cs_k cs_pred]. rewrite (no_k _ _ _ Hok).
-    destruct (d_k y) as [pr|[|] cw|[|]|ik|]; try exact I; eexists; reflexivity.
+    destruct (d_k y) as [pr|[|] cw|[|] ty|ik ty|]; try exact I; eexists; reflexivity.
   - destruct p as [|j p]; [constructor|]. apply (IH (s_ch s) (d_ch y) x Lc H).
 Qed.
 
@@ -717,13 +771,11 @@ Qed.
 
 (* C15, creation in the tree itself: the node exists, LY_EEXIST (a default node, that is an empty non-presence container,
    is left as it is and nothing is created) *)
-Theorem new_path_exists S t p x v :
-  swf S = true -> dwf S t = true -> quotes_ok t = true -> node_at t p = Some x ->
-  exists bs, path_of t p = Some bs /\
-             new_path S t bs v = if is_dflt x then NCreated None [] else NErr E_EXIST.
+Theorem new_path_exists_var S t p x v :
+  swf S = true -> dwf S t = true -> var_ok var t = true -> node_at t p = Some x ->
+  new_path S t (path_var var t p) v = if is_dflt x then NCreated None [] else NErr E_EXIST.
 Proof.
-  intros Hs Hd Hq Hn. destruct (compile_path_own true S t p x Hs Hd Hq Hn) as (bs & Hp & Hc).
-  exists bs. split; [exact Hp|]. unfold new_path. rewrite Hc.
+  intros Hs Hd Hq Hn. unfold new_path. rewrite (compile_path_var true S t p x Hs Hd Hq Hn).
   destruct (top_level S t Hs Hd Hq) as [L _].
   rewrite (check_find_std v _ O (csegs_std p S t x L Hn)).
   rewrite (eval_ok p S t x L Hn), Hn. reflexivity.
@@ -740,11 +792,11 @@ Definition chain_of (f : list dnode) (p : list nat) : list dnode :=
   end.
 
 Lemma key_nodes_lead l :
-  (forall c, In c l -> d_k c = KLeaf true /\ d_ch c = []) -> key_nodes (map key_triple l) = l.
+  (forall c, In c l -> d_ch c = []) -> key_nodes (map key_triple l) = l.
 Proof.
   unfold key_nodes. induction l as [|c l IH]; intro H; [reflexivity|]. cbn [map].
   rewrite IH by (intros d Hd; apply H; right; exact Hd).
-  destruct (H c (or_introl eq_refl)) as [Hk Hc]. destruct c as [cm cn ck cv cch].
+  pose proof (H c (or_introl eq_refl)) as Hc. destruct c as [cm cn ck cv cch].
   cbn [key_triple fst snd d_m d_n d_v d_k d_ch] in *. subst. reflexivity.
 Qed.
 
@@ -770,10 +822,18 @@ Proof.
   eapply nth_error_In. exact Hn.
 Qed.
 
-Lemma mk_chain_ok p : forall sc f x,
-  Level sc f -> node_at f p = Some x -> mk_chain (d_v x) (csegs sc f p) = Ok (chain_of f p).
+(* the value given to lyd_new_path(): for a term node any lexical form of its value, for anydata the empty value *)
+Definition val_ok (x : dnode) (w : bytes) : Prop :=
+  match d_k x with
+  | KLeaf _ ty | KLeafList _ ty => canon ty w = Some (d_v x)
+  | KAny => w = []
+  | _ => True
+  end.
+
+Lemma mk_chain_ok p : forall sc f x w,
+  Level sc f -> node_at f p = Some x -> val_ok x w -> mk_chain w (csegs sc f p) = Ok (chain_of f p).
 Proof.
-  induction p as [|i p IH]; intros sc f x L H; [discriminate|].
+  induction p as [|i p IH]; intros sc f x w L H Hw; [discriminate|].
   cbn [node_at csegs chain_of] in *. destruct (nth_error f i) as [y|] eqn:En; [|discriminate].
   destruct (level_down sc f i y L En) as (s & Hok & Hsw & Hq & Lc).
   rewrite (no_find _ _ _ Hok).
@@ -782,32 +842,32 @@ Proof.
   rewrite (no_m _ _ _ Hok), (no_n _ _ _ Hok), (no_k _ _ _ Hok).
   destruct p as [|j p].
   - (* the node itself *)
-    inversion H; subst y. cbn [csegs mk_chain]. unfold cpred_of.
-    destruct (d_k x) as [pr|[|] cw|[|]|[|]|] eqn:Ek; cbn [is_key_kind]; rewrite ?app_nil_r.
+    inversion H; subst y. cbn [csegs mk_chain]. unfold cpred_of. unfold val_ok in Hw.
+    destruct (d_k x) as [pr|[|] cw|[|] ty|[|] ty|] eqn:Ek; cbn [is_key_kind]; rewrite ?app_nil_r.
     + rewrite Hv. reflexivity.
     + rewrite Hv. reflexivity.
     + pose proof (keys_ok sc x s cw Hok Hsw Lc Ek) as K.
       rewrite <- (ko_map _ _ K), (target_keys_id _ (ko_dist _ _ K)).
       rewrite key_nodes_lead; [rewrite Hv; reflexivity|].
-      intros c Hc. destruct (ko_each _ _ K c Hc) as (_ & _ & _ & _ & H1 & H2 & _). split; assumption.
+      intros c Hc. destruct (ko_each _ _ K c Hc) as (_ & _ & _ & _ & _ & H2 & _). exact H2.
     + reflexivity.
-    + rewrite Hv. reflexivity.
+    + rewrite Hw. reflexivity.
     + reflexivity.
-    + rewrite Hv. reflexivity.
-    + rewrite Hv. reflexivity.
+    + rewrite Hw. reflexivity.
+    + rewrite Hw, Hv. reflexivity.
   - (* an ancestor *)
     cbn [node_at] in H. destruct (nth_error (d_ch y) j) as [z|] eqn:Ez; [|discriminate].
-    assert (Hsub : mk_chain (d_v x) (csegs (s_ch s) (d_ch y) (j :: p)) = Ok (chain_of (d_ch y) (j :: p))).
-    { apply (IH (s_ch s) (d_ch y) x Lc). cbn [node_at]. rewrite Ez. exact H. }
+    assert (Hsub : mk_chain w (csegs (s_ch s) (d_ch y) (j :: p)) = Ok (chain_of (d_ch y) (j :: p))).
+    { apply (IH (s_ch s) (d_ch y) x w Lc); [|exact Hw]. cbn [node_at]. rewrite Ez. exact H. }
     rewrite Hsub. cbn [chain_of]. rewrite Ez. unfold cpred_of.
-    destruct (d_k y) as [pr|[|] cw|[|]|[|]|] eqn:Ek; cbn [is_key_kind];
+    destruct (d_k y) as [pr|[|] cw|[|] ty|[|] ty|] eqn:Ek; cbn [is_key_kind];
       try (rewrite Hch in Ez; destruct j; discriminate).
     + rewrite (nokeys_nth _ _ _ Hch Ez), Hv. cbn [length app]. reflexivity.
     + rewrite (nokeys_nth _ _ _ Hch Ez), Hv. cbn [length app]. reflexivity.
     + destruct Hch as [_ Hnk].
       pose proof (keys_ok sc y s cw Hok Hsw Lc Ek) as K.
       rewrite <- (ko_map _ _ K), (target_keys_id _ (ko_dist _ _ K)).
-      rewrite key_nodes_lead; [|intros c Hc; destruct (ko_each _ _ K c Hc) as (_ & _ & _ & _ & H1 & H2 & _); split; assumption].
+      rewrite key_nodes_lead; [|intros c Hc; destruct (ko_each _ _ K c Hc) as (_ & _ & _ & _ & _ & H2 & _); exact H2].
       rewrite (key_child_iff _ _ _ Hnk Ez), Hv. reflexivity.
 Qed.
 
@@ -830,16 +890,15 @@ Qed.
 
 (* C15, creation in an empty tree: the chain created from the path and the value of a node is the node and its
    ancestors, list instances with their keys *)
-Theorem new_path_empty S t p x :
-  swf S = true -> dwf S t = true -> quotes_ok t = true -> node_at t p = Some x -> top_first t p ->
-  exists bs, path_of t p = Some bs /\ new_path S [] bs (d_v x) = NCreated None (spine t p).
+Theorem new_path_empty_var S t p x w :
+  swf S = true -> dwf S t = true -> var_ok var t = true -> node_at t p = Some x -> top_first t p -> val_ok x w ->
+  new_path S [] (path_var var t p) w = NCreated None (spine t p).
 Proof.
-  intros Hs Hd Hq Hn Htop. destruct (compile_path_own true S t p x Hs Hd Hq Hn) as (bs & Hp & Hc).
-  exists bs. split; [exact Hp|]. unfold new_path. rewrite Hc.
+  intros Hs Hd Hq Hn Htop Hw. unfold new_path. rewrite (compile_path_var true S t p x Hs Hd Hq Hn).
   destruct (top_level S t Hs Hd Hq) as [L Hnk].
-  rewrite (check_find_std (d_v x) _ O (csegs_std p S t x L Hn)).
+  rewrite (check_find_std w _ O (csegs_std p S t x L Hn)).
   rewrite eval_segs_empty. cbn [skipn].
-  pose proof (mk_chain_ok p S t x L Hn) as Hch.
+  pose proof (mk_chain_ok p S t x w L Hn Hw) as Hch.
   destruct p as [|i p]; [discriminate|].
   cbn [node_at csegs chain_of top_first] in *. destruct (nth_error t i) as [y|] eqn:En; [|discriminate].
   destruct (level_down S t i y L En) as (s & Hok & Hsw & Hqy & Lc).
@@ -853,13 +912,112 @@ Proof.
                  end = false).
   { rewrite (no_k _ _ _ Hok). unfold cpred_of. assert (Hsm : N.of_nat (length (rev (firstn i t))) < 2147483648).
     { pose proof (before_len t i). pose proof (lv_len _ _ L). lia. }
-    destruct (d_k y) as [pr|[|] cw|[|]|ik|]; try reflexivity; cbn [dup_inst andb inst_count find_idx];
+    destruct (d_k y) as [pr|[|] cw|[|] ty|ik ty|]; try reflexivity; cbn [dup_inst andb inst_count find_idx];
       rewrite list_pos_small by exact Hsm; rewrite (Htop eq_refl); reflexivity. }
   rewrite Epos. rewrite Hch. reflexivity.
 Qed.
 
+End WithVar.
+
+(* ---------- the printed path: [var] = the stored canonical value ---------- *)
+Section DnodeInd.
+  Variable P : dnode -> Prop.
+  Hypothesis H : forall m n k v ch, Forall P ch -> P (DN m n k v ch).
+  Fixpoint dnode_ind' (x : dnode) : P x :=
+    match x with
+    | DN m n k v ch =>
+        H m n k v ch
+          ((fix go (l : list dnode) : Forall P l :=
+              match l with
+              | [] => Forall_nil P
+              | c :: l' => Forall_cons c (dnode_ind' c) (go l')
+              end) ch)
+    end.
+End DnodeInd.
+
+Lemma own_var_node x : forall sc, dwf_node sc x = true -> quotes_ok_node x = true -> var_ok_node d_v x = true.
+Proof.
+  induction x as [m n k v ch IH] using dnode_ind'. intros sc Hd Hq.
+  cbn [dwf_node] in Hd. destruct (find_child sc m n) as [s|]; [|discriminate].
+  repeat (apply andb_true_iff in Hd; destruct Hd as [Hd ?]).
+  cbn [quotes_ok_node] in Hq. apply andb_true_iff in Hq. destruct Hq as [Hq1 Hq2].
+  cbn [var_ok_node d_v]. apply andb_true_iff. split.
+  - destruct k as [pr|kl cw|[|] ty|[|] ty|]; cbn [needs_lit kind_ty] in *; try reflexivity.
+    + rewrite H3, Hq1. reflexivity.
+    + rewrite H3, Hq1. reflexivity.
+  - rewrite forallb_forall. intros c Hc. rewrite Forall_forall in IH.
+    match goal with Hx : forallb (dwf_node _) ch = true |- _ => rename Hx into Hdch end.
+    rewrite forallb_forall in Hdch, Hq2. apply (IH c Hc (s_ch s)); [apply Hdch; exact Hc|apply Hq2; exact Hc].
+Qed.
+
+Lemma own_var_ok S t : dwf S t = true -> quotes_ok t = true -> var_ok d_v t = true.
+Proof.
+  unfold dwf, quotes_ok, var_ok. intros Hd Hq.
+  apply andb_true_iff in Hd. destruct Hd as [Hd _]. apply andb_true_iff in Hd. destruct Hd as [_ Hd].
+  rewrite forallb_forall in *. intros x Hx. apply (own_var_node x S); [apply Hd; exact Hx|apply Hq; exact Hx].
+Qed.
+
+Lemma path_of_var t p x : node_at t p = Some x -> path_of t p = Some (path_var d_v t p).
+Proof. intro H. apply (path_from_render p None t x H). Qed.
+
+(* the four theorems for the path lyd_path() prints *)
+Theorem roundtrip_stages S t p x :
+  swf S = true -> dwf S t = true -> quotes_ok t = true -> node_at t p = Some x ->
+  exists bs sp cp,
+    path_of t p = Some bs /\ parse_path bs = Ok sp /\
+    compile_segs false S None sp = Ok cp /\ compile_segs true S None sp = Ok cp /\
+    eval_segs cp t = EFound p.
+Proof.
+  intros Hs Hd Hq Hn.
+  destruct (roundtrip_stages_var d_v S t p x Hs Hd (own_var_ok S t Hd Hq) Hn) as (sp & cp & H1 & H2 & H3 & H4).
+  exists (path_var d_v t p), sp, cp. split; [apply (path_of_var t p x Hn)|]. auto.
+Qed.
+
+Theorem find_own S t p x :
+  swf S = true -> dwf S t = true -> quotes_ok t = true -> node_at t p = Some x ->
+  exists bs, path_of t p = Some bs /\ find_path S t bs = FRes (EFound p).
+Proof.
+  intros Hs Hd Hq Hn. exists (path_var d_v t p). split; [apply (path_of_var t p x Hn)|].
+  apply (find_var d_v S t p x Hs Hd (own_var_ok S t Hd Hq) Hn).
+Qed.
+
+Theorem new_path_exists S t p x v :
+  swf S = true -> dwf S t = true -> quotes_ok t = true -> node_at t p = Some x ->
+  exists bs, path_of t p = Some bs /\
+             new_path S t bs v = if is_dflt x then NCreated None [] else NErr E_EXIST.
+Proof.
+  intros Hs Hd Hq Hn. exists (path_var d_v t p). split; [apply (path_of_var t p x Hn)|].
+  apply (new_path_exists_var d_v S t p x v Hs Hd (own_var_ok S t Hd Hq) Hn).
+Qed.
+
+(* the stored value of a node is an admissible value for its creation *)
+Lemma val_ok_own S t p x : swf S = true -> dwf S t = true -> node_at t p = Some x -> val_ok x (d_v x).
+Proof.
+  intros Hs Hd. revert x. unfold dwf in Hd.
+  apply andb_true_iff in Hd. destruct Hd as [Hd _]. apply andb_true_iff in Hd. destruct Hd as [_ Hd].
+  assert (G : forall p f sc x, forallb (dwf_node sc) f = true -> node_at f p = Some x -> val_ok x (d_v x)).
+  { clear. induction p as [|i p IH]; intros f sc x Hf Hn; [discriminate|].
+    cbn [node_at] in Hn. destruct (nth_error f i) as [y|] eqn:En; [|discriminate].
+    pose proof (forallb_nth _ _ _ _ Hf En) as Hy.
+    destruct (dwf_node_unpack sc y Hy) as (s & Hok & _ & _ & Hch).
+    destruct p as [|j p].
+    - inversion Hn; subst y. pose proof (no_val _ _ _ Hok) as Hv. unfold val_ok.
+      destruct (d_k x) as [pr|kl cw|cw ty|ik ty|]; cbn [kind_ty] in Hv; auto.
+    - apply (IH (d_ch y) (s_ch s) x Hch Hn). }
+  intros x Hn. apply (G p t S x Hd Hn).
+Qed.
+
+Theorem new_path_empty S t p x :
+  swf S = true -> dwf S t = true -> quotes_ok t = true -> node_at t p = Some x -> top_first t p ->
+  exists bs, path_of t p = Some bs /\ new_path S [] bs (d_v x) = NCreated None (spine t p).
+Proof.
+  intros Hs Hd Hq Hn Htop. exists (path_var d_v t p). split; [apply (path_of_var t p x Hn)|].
+  apply (new_path_empty_var d_v S t p x (d_v x) Hs Hd (own_var_ok S t Hd Hq) Hn Htop (val_ok_own S t p x Hs Hd Hn)).
+Qed.
+
 (* ---------- a non-trivial tree that meets the hypotheses, and the limits of the theorems ---------- *)
 From Coq Require Import String Ascii.
+From LY Require IntLex.
 Fixpoint sb (s : string) : bytes :=
   match s with
   | EmptyString => []
@@ -872,43 +1030,54 @@ Fixpoint sb (s : string) : bytes :=
 Definition ex_S : list snode :=
   [ SN (sb "m1") (sb "c") (KCont false)
       [ SN (sb "m1") (sb "l") (KList false true)
-          [ SN (sb "m1") (sb "k1") (KLeaf true) []; SN (sb "m1") (sb "k.2") (KLeaf true) [];
-            SN (sb "m1") (sb "v") (KLeaf false) [];
+          [ SN (sb "m1") (sb "k1") (KLeaf true TString) []; SN (sb "m1") (sb "k.2") (KLeaf true TString) [];
+            SN (sb "m1") (sb "v") (KLeaf false TString) [];
             SN (sb "m1") (sb "inner") (KList false true)
-              [ SN (sb "m1") (sb "id") (KLeaf true) []; SN (sb "m1") (sb "ll") (KLeafList true) [] ];
-            SN (sb "m2") (sb "k1") (KLeaf false) [] ];
+              [ SN (sb "m1") (sb "id") (KLeaf true TString) []; SN (sb "m1") (sb "ll") (KLeafList true TString) [] ];
+            SN (sb "m2") (sb "k1") (KLeaf false TString) [] ];
+        SN (sb "m1") (sb "tl") (KList false true)
+          [ SN (sb "m1") (sb "n") (KLeaf true (TInt IntLex.I8)) []; SN (sb "m1") (sb "b") (KLeaf true TBool) [];
+            SN (sb "m1") (sb "e") (KLeaf true (TEnum [sb "up"; sb "a b"])) [];
+            SN (sb "m1") (sb "u") (KLeaf false (TInt IntLex.U8)) [] ];
         SN (sb "m2") (sb "c") (KCont true) [] ];
     SN (sb "m1") (sb "st") (KCont false)
       [ SN (sb "m1") (sb "kl") (KList true false)
-          [ SN (sb "m1") (sb "x") (KLeaf false) []; SN (sb "m1") (sb "sl") (KLeafList false) [] ];
-        SN (sb "m1") (sb "sl") (KLeafList false) [] ];
+          [ SN (sb "m1") (sb "x") (KLeaf false TString) []; SN (sb "m1") (sb "sl") (KLeafList false TString) [] ];
+        SN (sb "m1") (sb "sl") (KLeafList false TString) [] ];
     SN (sb "m1") (sb "tk") (KList true false) [ SN (sb "m1") (sb "and") (KAny) [] ];
-    SN (sb "m2") (sb "c") (KCont false) [ SN (sb "m2") (sb "a") (KLeaf false) [] ] ].
+    SN (sb "m2") (sb "c") (KCont false) [ SN (sb "m2") (sb "a") (KLeaf false TString) [] ] ].
 
 Definition ex_t : list dnode :=
   [ DN (sb "m1") (sb "c") (KCont false) []
       [ DN (sb "m1") (sb "l") (KList false true) []
-          [ DN (sb "m1") (sb "k1") (KLeaf true) (sb "a b") []; DN (sb "m1") (sb "k.2") (KLeaf true) (sb "[x]'y/") [];
-            DN (sb "m1") (sb "v") (KLeaf false) (sb "it's ""1""") [];
+          [ DN (sb "m1") (sb "k1") (KLeaf true TString) (sb "a b") []; DN (sb "m1") (sb "k.2") (KLeaf true TString) (sb "[x]'y/") [];
+            DN (sb "m1") (sb "v") (KLeaf false TString) (sb "it's ""1""") [];
             DN (sb "m1") (sb "inner") (KList false true) []
-              [ DN (sb "m1") (sb "id") (KLeaf true) (sb "i""1") [];
-                DN (sb "m1") (sb "ll") (KLeafList true) [] []; DN (sb "m1") (sb "ll") (KLeafList true) (sb "p/q\") [] ];
+              [ DN (sb "m1") (sb "id") (KLeaf true TString) (sb "i""1") [];
+                DN (sb "m1") (sb "ll") (KLeafList true TString) [] []; DN (sb "m1") (sb "ll") (KLeafList true TString) (sb "p/q\") [] ];
             DN (sb "m1") (sb "inner") (KList false true) []
-              [ DN (sb "m1") (sb "id") (KLeaf true) [195; 169] [] ];
-            DN (sb "m2") (sb "k1") (KLeaf false) (sb "z") [] ];
+              [ DN (sb "m1") (sb "id") (KLeaf true TString) [195; 169] [] ];
+            DN (sb "m2") (sb "k1") (KLeaf false TString) (sb "z") [] ];
         DN (sb "m1") (sb "l") (KList false true) []
-          [ DN (sb "m1") (sb "k1") (KLeaf true) (sb "a b") []; DN (sb "m1") (sb "k.2") (KLeaf true) (sb "]") [] ];
+          [ DN (sb "m1") (sb "k1") (KLeaf true TString) (sb "a b") []; DN (sb "m1") (sb "k.2") (KLeaf true TString) (sb "]") [] ];
+        DN (sb "m1") (sb "tl") (KList false true) []
+          [ DN (sb "m1") (sb "n") (KLeaf true (TInt IntLex.I8)) (sb "-7") []; DN (sb "m1") (sb "b") (KLeaf true TBool) (sb "true") [];
+            DN (sb "m1") (sb "e") (KLeaf true (TEnum [sb "up"; sb "a b"])) (sb "a b") [];
+            DN (sb "m1") (sb "u") (KLeaf false (TInt IntLex.U8)) (sb "200") [] ];
+        DN (sb "m1") (sb "tl") (KList false true) []
+          [ DN (sb "m1") (sb "n") (KLeaf true (TInt IntLex.I8)) (sb "7") []; DN (sb "m1") (sb "b") (KLeaf true TBool) (sb "false") [];
+            DN (sb "m1") (sb "e") (KLeaf true (TEnum [sb "up"; sb "a b"])) (sb "up") [] ];
         DN (sb "m2") (sb "c") (KCont true) [] [] ];
     DN (sb "m1") (sb "st") (KCont false) []
       [ DN (sb "m1") (sb "kl") (KList true false) []
-          [ DN (sb "m1") (sb "x") (KLeaf false) (sb "1") [];
-            DN (sb "m1") (sb "sl") (KLeafList false) (sb "a") []; DN (sb "m1") (sb "sl") (KLeafList false) (sb "a") [] ];
+          [ DN (sb "m1") (sb "x") (KLeaf false TString) (sb "1") [];
+            DN (sb "m1") (sb "sl") (KLeafList false TString) (sb "a") []; DN (sb "m1") (sb "sl") (KLeafList false TString) (sb "a") [] ];
         DN (sb "m1") (sb "kl") (KList true false) [] [];
-        DN (sb "m1") (sb "kl") (KList true false) [] [ DN (sb "m1") (sb "x") (KLeaf false) (sb "2") [] ];
-        DN (sb "m1") (sb "sl") (KLeafList false) (sb "dup") []; DN (sb "m1") (sb "sl") (KLeafList false) (sb "dup") [] ];
+        DN (sb "m1") (sb "kl") (KList true false) [] [ DN (sb "m1") (sb "x") (KLeaf false TString) (sb "2") [] ];
+        DN (sb "m1") (sb "sl") (KLeafList false TString) (sb "dup") []; DN (sb "m1") (sb "sl") (KLeafList false TString) (sb "dup") [] ];
     DN (sb "m1") (sb "tk") (KList true false) [] [ DN (sb "m1") (sb "and") KAny [] [] ];
     DN (sb "m1") (sb "tk") (KList true false) [] [];
-    DN (sb "m2") (sb "c") (KCont false) [] [ DN (sb "m2") (sb "a") (KLeaf false) (sb "v") [] ] ].
+    DN (sb "m2") (sb "c") (KCont false) [] [ DN (sb "m2") (sb "a") (KLeaf false TString) (sb "v") [] ] ].
 
 (* the same two values with the strings computed away (for the extraction: the correspondence component feeds this very
    tree, as libyang holds it, to the model and to the implementation; corpus/pathmodel.txt) *)
@@ -955,10 +1124,16 @@ Definition own_ok (S : list snode) (t : list dnode) (p : list nat) : bool :=
 
 Lemma ex_hyps :
   swf ex_S = true /\ dwf ex_S ex_t = true /\ quotes_ok ex_t = true /\
-  List.length (all_pos ex_t O) = 31%nat /\ forallb (own_ok ex_S ex_t) (all_pos ex_t O) = true /\
+  List.length (all_pos ex_t O) = 40%nat /\ forallb (own_ok ex_S ex_t) (all_pos ex_t O) = true /\
   path_of ex_t [0; 0; 3; 2]%nat = Some (sb "/m1:c/l[k1='a b'][k.2=""[x]'y/""]/inner[id='i""1']/ll[.='p/q\']") /\
   path_of ex_t [0; 0; 5]%nat = Some (sb "/m1:c/l[k1='a b'][k.2=""[x]'y/""]/m2:k1") /\
-  path_of ex_t [0; 2]%nat = Some (sb "/m1:c/m2:c") /\
+  path_of ex_t [0; 4]%nat = Some (sb "/m1:c/m2:c") /\
+  path_of ex_t [0; 2; 3]%nat = Some (sb "/m1:c/tl[n='-7'][b='true'][e='a b']/u") /\
+  canon (TInt IntLex.I8) (sb " -07 ") = Some (sb "-7") /\ canon (TInt IntLex.I8) (sb "+007") = Some (sb "7") /\
+  canon (TInt IntLex.I8) (sb "128") = None /\ canon TBool (sb "True") = None /\
+  find_path ex_S ex_t (sb "/m1:c/tl[n=' -07 '][b='true'][e='a b']/u") = FRes (EFound [0; 2; 3]%nat) /\
+  find_path ex_S ex_t (sb "/m1:c/tl[e='up'][n=""+007""][b='false']") = FRes (EFound [0; 3]%nat) /\
+  new_path ex_S [] (sb "/m1:c/tl[n='-007'][b='true'][e='a b']/u") (sb "+0200") = NCreated None (spine ex_t [0; 2; 3]%nat) /\
   path_of ex_t [1; 2; 0]%nat = Some (sb "/m1:st/kl[3]/x") /\
   path_of ex_t [1; 4]%nat = Some (sb "/m1:st/sl[2]") /\
   new_path ex_S [] (sb "/m1:st/kl[3]/x") (sb "2") = NCreated None (spine ex_t [1; 2; 0]%nat).
@@ -969,8 +1144,8 @@ Proof. vm_compute. repeat split. Qed.
 Definition ex_bad_t : list dnode :=
   [ DN (sb "m1") (sb "c") (KCont false) []
       [ DN (sb "m1") (sb "l") (KList false true) []
-          [ DN (sb "m1") (sb "k1") (KLeaf true) (sb "a'b""c") []; DN (sb "m1") (sb "k.2") (KLeaf true) [] [];
-            DN (sb "m1") (sb "v") (KLeaf false) (sb "1") [] ] ] ].
+          [ DN (sb "m1") (sb "k1") (KLeaf true TString) (sb "a'b""c") []; DN (sb "m1") (sb "k.2") (KLeaf true TString) [] [];
+            DN (sb "m1") (sb "v") (KLeaf false TString) (sb "1") [] ] ] ].
 
 Lemma both_quotes_path_refuted :
   swf ex_S = true /\ dwf ex_S ex_bad_t = true /\ quotes_ok ex_bad_t = false /\
